@@ -326,31 +326,60 @@ func (k *checker) getLayer(ht *hostTables, list []int, dl []descriptor.Descripto
 			e.rt.ResetLog()
 		}
 	}()
-	r, err := ref.New("reg.example/repo@" + dig)
+	// the same list one level down: an outer index whose only entry carries exactly the requested
+	// platform and names the index above (platform resolution "loops to handle a nested index")
+	outer, err := manifest.New(manifest.WithOrig(v1.Index{Versioned: v1.IndexSchemaVersion, MediaType: mediatype.OCI1ManifestList,
+		Manifests: []descriptor.Descriptor{{MediaType: m.GetDescriptor().MediaType, Digest: m.GetDescriptor().Digest, Size: int64(len(body)), Platform: &h}}}))
 	if err != nil {
-		k.rec.HarnessError("ref: %v", err)
+		k.rec.HarnessError("manifest.New(outer): %v", err)
 		return
 	}
-	res, err := e.rc.ManifestGet(context.Background(), r, regclient.WithManifestPlatform(h))
-	got := -1
-	if err == nil {
-		p, ok := e.posOf[res.GetDescriptor().Digest]
-		if !ok || p >= len(list) {
-			k.viol("e2e/get/returned-the-index "+osClass(h), fmt.Sprintf("requested %s: ManifestGet with a platform returned %s (%s), not one of the entries", pstr(h), res.GetDescriptor().Digest, res.GetDescriptor().MediaType), k.replayOf(ht, list))
+	obody, _ := outer.RawBody()
+	odig := outer.GetDescriptor().Digest.String()
+	e.reg.mu.Lock()
+	e.reg.man[odig] = memMan{body: obody, mt: outer.GetDescriptor().MediaType, dig: odig}
+	e.reg.mu.Unlock()
+	defer func() {
+		e.reg.mu.Lock()
+		delete(e.reg.man, odig)
+		e.reg.mu.Unlock()
+	}()
+	for _, how := range []string{"get", "head", "get-nested", "head-nested"} {
+		d := dig
+		if strings.HasSuffix(how, "-nested") {
+			d = odig
+		}
+		r, err := ref.New("reg.example/repo@" + d)
+		if err != nil {
+			k.rec.HarnessError("ref: %v", err)
 			return
 		}
-		got = p
-		k.count("e2e.get.found", 1)
-	} else if notFound(err) {
-		k.count("e2e.get.not-found", 1)
-	} else {
-		k.viol("e2e/get/unexpected-error", fmt.Sprintf("requested %s: ManifestGet: %v", pstr(h), err), k.replayOf(ht, list))
-		return
+		var res manifest.Manifest
+		if strings.HasPrefix(how, "get") {
+			res, err = e.rc.ManifestGet(context.Background(), r, regclient.WithManifestPlatform(h))
+		} else {
+			res, err = e.rc.ManifestHead(context.Background(), r, regclient.WithManifestPlatform(h))
+		}
+		got := -1
+		if err == nil {
+			p, ok := e.posOf[res.GetDescriptor().Digest]
+			if !ok || p >= len(list) {
+				k.viol("e2e/"+how+"/returned-the-index "+osClass(h), fmt.Sprintf("requested %s: Manifest%s with a platform returned %s (%s), not one of the entries", pstr(h), how, res.GetDescriptor().Digest, res.GetDescriptor().MediaType), k.replayOf(ht, list))
+				return
+			}
+			got = p
+			k.count("e2e."+how+".found", 1)
+		} else if notFound(err) {
+			k.count("e2e."+how+".not-found", 1)
+		} else {
+			k.viol("e2e/"+how+"/unexpected-error", fmt.Sprintf("requested %s: Manifest%s: %v", pstr(h), how, err), k.replayOf(ht, list))
+			return
+		}
+		if verbose {
+			fmt.Printf("  %s (docker list=%v): selected position %d (err=%v)\n", how, docker, got, err)
+		}
+		k.judgeSelection(ht, how, list, got)
 	}
-	if verbose {
-		fmt.Printf("  get (docker list=%v): selected position %d (err=%v)\n", docker, got, err)
-	}
-	k.judgeSelection(ht, "get", list, got)
 }
 
 func (k *checker) replayOf(ht *hostTables, list []int) replayData {
